@@ -89,8 +89,23 @@ def sym_sig(symbols):
     return [(s.name, s.type.name, s.lags, s.leads) for s in symbols if s.type in FOUR]
 
 
+class _FlattenBool(ast.NodeTransformer):
+    """(a and b) and c, a and (b and c) and a and b and c are the same expression (Python itself flattens chains)."""
+
+    def visit_BoolOp(self, node):
+        self.generic_visit(node)
+        vals = []
+        for v in node.values:
+            if isinstance(v, ast.BoolOp) and type(v.op) is type(node.op):
+                vals += v.values
+            else:
+                vals.append(v)
+        node.values = vals
+        return node
+
+
 def code_ast(code):
-    return ast.dump(ast.parse(code))
+    return ast.dump(_FlattenBool().visit(ast.parse(code)))
 
 
 # ---------------------------------------------------------------------------------------------
@@ -156,7 +171,19 @@ def tree_eq(a, b):
     return type(a) == type(b) and a == b if not (isinstance(a, (int, float)) and isinstance(b, (int, float))) else (a == b and isinstance(a, bool) == isinstance(b, bool))
 
 
+def _dedupe_branches(evs):
+    """How often the truth value of one and the same operand is asked differs between a flattened and a nested
+    and/or chain (CPython threads the jumps); it is not an observable of the model."""
+    out = []
+    for e in evs:
+        if e[0] == 'branch' and out and out[-1][0] == 'branch' and tree_eq(out[-1][1:], e[1:]):
+            continue
+        out.append(e)
+    return out
+
+
 def cmp_events(got, want):
+    got, want = _dedupe_branches(got), _dedupe_branches(want)
     if len(got) != len(want):
         return f'event count {len(got)} vs {len(want)}'
     for i, (g, w) in enumerate(zip(got, want)):
@@ -291,9 +318,9 @@ def check_equation_text(equation, stmt, names):
             return ('varn', tr[2], tr[3])
         if k in ('numv',):
             return tr
-        if k == 'neg':
-            return ('neg', drop_kind(tr[1]))
-        if k in ('bin', 'cmp'):
+        if k in ('neg', 'not'):
+            return (k, drop_kind(tr[1]))
+        if k in ('bin', 'cmp', 'bool'):
             return (k, tr[1], drop_kind(tr[2]), drop_kind(tr[3]))
         if k == 'call':
             return ('call', tr[1], tuple(drop_kind(a) for a in tr[2]))
@@ -480,7 +507,7 @@ def check_c20(rec, names, symbols, Model, seed):
             n += 1
         edges_in = {a for a, b in got_edges if b == y}
         got_reads = {term_str(nm, k) for nm, k in reads_all}
-        has_branch = any(tk['t'] in ('cond',) for tk in s['rhs'])
+        has_branch = any(tk['t'] in ('cond', 'bool') for tk in s['rhs'])
         if not got_reads <= edges_in:
             raise Mis('c20-read-without-edge', node=y, reads=sorted(got_reads), edges=sorted(edges_in))
         if not has_branch and got_reads != edges_in:
